@@ -233,8 +233,8 @@ int main(int argc, char** argv)
     }
     // minimum chain work settings: none, and -1/0/+1 around the work of heights 150 and 398 (= tip+288)
     std::vector<int64_t> ms{0, Work(150) - 1, Work(150), Work(150) + 1};
-    if (big) for (int64_t x : {Work(111) - 1, Work(111), Work(111) + 1, Work(398) - 1, Work(398), Work(398) + 1, Work(110), (int64_t)1}) ms.push_back(x);
-    std::vector<int> forks = big ? std::vector<int>{TIP_H, TIP_H - 1, TIP_H - 2, TIP_H - 3, TIP_H - 10} : std::vector<int>{TIP_H, TIP_H - 1, TIP_H - 3};
+    for (int64_t x : {Work(111) - 1, Work(111), Work(111) + 1, Work(398) - 1, Work(398), Work(398) + 1, Work(110), (int64_t)1}) ms.push_back(x);
+    std::vector<int> forks{TIP_H, TIP_H - 1, TIP_H - 2, TIP_H - 3, TIP_H - 10};
     for (int64_t m : ms) {
         if (vx::deadline_reached()) { E.exhaustive = false; break; }
         ck::NodeOpts o;
@@ -257,7 +257,7 @@ int main(int argc, char** argv)
             for (int h = TIP_H - 3; h <= TIP_H + 3; h++) hs.insert(h);
             for (int h = TIP_H + 286; h <= TIP_H + 291; h++) hs.insert(h);
             for (int h : {148, 149, 150, 151, 152}) hs.insert(h);
-            if (big) for (int h : {TIP_H + 100, TIP_H + 287 + 288, 1000}) hs.insert(h);
+            if (big) for (int h : {TIP_H + 50, TIP_H + 100, TIP_H + 200, TIP_H + 287 + 288, 1000, 2500}) hs.insert(h);
             for (int h : hs) {
                 if (h <= f) continue;
                 for (bool have : {false, true}) g.Scenario(f, h, have, true, true);
